@@ -946,7 +946,8 @@ pub fn remount_view(img: &Image, cfg: &Cfg) -> Value {
                 Ok(s) => json!({"dirty": s.dirty(), "ioerr": s.io_error()}),
                 Err(e) => err_json(&e),
             };
-            std::mem::forget(fs);
+            // (the view is taken on a clone of the image: whatever dropping writes goes nowhere; forgetting would leak the clone)
+            drop(fs);
             json!({"ok": true, "tree": v, "flags": stj})
         }
         Err(e) => json!({"ok": false, "err": err_json(&e)}),
